@@ -10,15 +10,30 @@ W = {"ref": 6, "output": 1, "repeat": 0.3, "encode": 0.3, "interp": 0.5}
 def stream_case(rng):
     """2-3 document stream with cross-document references ($match/$path map form and [pattern, path...] form)."""
     docs = [gen.map_tree(rng, depth=3, nulls=False) for _ in range(rng.randint(2, 3))]
+    textual = rng.random() < 0.15
     for i, d in enumerate(docs):
         d["kind"] = rng.choice(["A", "B", "C"]) if rng.random() < 0.3 else "K%d" % i
+        if textual:
+            # scalars that print alike but are different values: 1 / "1" / 1.0 / true / "true" never match one another
+            d["kind"] = [1, "1", 1.0, True, "true", "1.0"][(i * 2 + rng.randint(0, 1)) % 6]
     src = rng.randrange(len(docs))
     tgt = rng.randrange(len(docs))
     pat = {"kind": docs[tgt]["kind"]}
     if rng.random() < 0.1:
         pat = {"kind": "nosuch"}
     tp = [list(p) for p, _ in gen.map_paths(docs[tgt])]
-    path = rng.choice(tp) if tp and rng.random() < 0.8 else []
+    path = rng.choice(tp) if tp and rng.random() < 0.7 else []
+    if rng.random() < 0.35:
+        # the TARGET document evaluates references of its own (map-form $merge nested somewhere): whoever reads it
+        # as a whole must not disturb it, whether it is emitted before or after the host
+        try:
+            docs[tgt] = gen.inject_ref(rng, docs[tgt])
+            if isinstance(docs[tgt], dict):
+                docs[tgt].setdefault("kind", "K%d" % tgt)
+        except Exception:
+            pass
+        if rng.random() < 0.5:
+            path = []
     kind = rng.choice(["$merge", "$replace"])
     r = rng.random()
     if r < 0.4:
